@@ -129,6 +129,10 @@ static void* concMain(void* a) {
   while (!__atomic_load_n(&g_go, RLX)) sched_yield();
   for (int o = 0; o < t.nops; ++o) {
     int k = (int)r.below(100), i = (int)r.below((u64)t.P), j = (int)r.below((u64)t.P);
+#ifndef __SANITIZE_THREAD__
+    // evidence only (not in the TSan build, where this volatile read would add synchronisation): was the String payload shared when the operation began?
+    if (t.s[i].data->ref > 1) ++t.sharedOps;
+#endif
     if (r.chance(1, 5)) { // Xml::Variant handles
       int xk = (int)r.below(10); XModel& m = t.xm[i];
       if (xk < 3) { Xml::Variant tmp(t.x[i]); checkX(tmp, m, "temporary copy"); }
@@ -207,8 +211,8 @@ static void conc() {
     __atomic_store_n(&g_go, 1, RLX);
     for (int i = 0; i < P; ++i) drop(opm[i]);
     delete[] os; delete[] ov; delete[] op; delete[] ox;
-    long ops = 0, mods = 0, mail = 0;
-    for (int t = 0; t < T; ++t) { pthread_join(ts[t].th, 0); ops += ts[t].ops; mods += ts[t].mods; mail += ts[t].mailOps; }
+    long ops = 0, mods = 0, mail = 0, shared = 0;
+    for (int t = 0; t < T; ++t) { pthread_join(ts[t].th, 0); ops += ts[t].ops; mods += ts[t].mods; mail += ts[t].mailOps; shared += ts[t].sharedOps; }
     setctx("conc/mailbox-cleanup");
     for (int i = 0; i < 4; ++i) { drop(g_mail[i].pm); }
     delete[] g_mail; delete[] ts;
@@ -216,7 +220,7 @@ static void conc() {
 #ifdef VERIF_LEDGER
     { long leaked = verif_ledger_live() - live0; if (leaked != 0) fail("shared-payload/ledger:not-released", "%ld heap block(s) allocated during the run are still live after every handle is gone", leaked); }
 #endif
-    cnt("ops", ops); cnt("in_place_modifications", mods); cnt("mailbox_exchanges", mail); cnt("threads", T); if (pin >= 0) cnt("runs_pinned_to_one_cpu");
+    cnt("ops", ops); cnt("ops_begun_while_string_payload_shared", shared); cnt("in_place_modifications", mods); cnt("mailbox_exchanges", mail); cnt("threads", T); if (pin >= 0) cnt("runs_pinned_to_one_cpu");
     if (idx % 97 == 0) sample("%s ops=%ld", hist.c(), ops);
     endCase(mix((u64)idx, (u64)ops), T >= 2 && ops >= 400);
   }
